@@ -213,7 +213,7 @@ def main(ctx):
     fixed = [(1, 2, 1), (2, 2, 1), (2, 3, 2), (3, 3, 2), (3, 4, 3), (3, 3, 3), (4, 4, 3), (4, 6, 3), (2, 1, 2), (3, 2, 3)]
     for na, ns, ne in fixed:
         systems.append(gen_system(rng, na, ns, ne, lmax=1))
-    n_rand = 14 if quick else 150
+    n_rand = 14 if quick else 60
     for i in range(n_rand):
         na = rng.randint(1, 4)
         systems.append(gen_system(rng, na, rng.randint(max(1, na - 2), 6 if not quick else 4), rng.randint(1, 3), lmax=2 if i % 5 == 0 else 1, far=(i % 7 == 3)))
